@@ -426,7 +426,7 @@ def replay_one(pid, path):
     if cfg["kind"] == "libfuzzer":
         import kinds
         bins = build_targets(cfg["fuzzers"])
-        fails, out, _ = kinds.replay_fuzz(bins[kinds.fuzzer_of(path)], path)
+        fails, out, _ = kinds.replay_any(bins, path)
         log(out[-1500:])
         return 1 if fails else 0
     bins = build_targets([cfg["target"]])
